@@ -86,6 +86,10 @@ func c17Role(role string, kinds string, conc bool, burst int) pxScenario {
 		if i%4 == 1 {
 			b.add(b.send(1, 2))
 		}
+		if i == 1 && role == "slow-dial" {
+			b.add(att(3)...) // AddClient while the dial is outstanding
+			b.add(b.send(3, 2))
+		}
 		if i%6 == 3 {
 			a := b.send(3, 1) // the third peer itself speaks (if it is attached), also with a forged source
 			if i%12 == 9 {
